@@ -222,6 +222,43 @@ func c02Type(sp *listSpec, ids []int, maxDepth int, r *engine.IResult) {
 								good = false
 							}
 						}
+						// the same update when the existing list was stored in another order (a full update stores the list as
+						// it is given — that alone is left open — but a later merge by identifier that changes the data must
+						// leave it ordered by identifier)
+						// (judged for the merge by identifier only; whether an update that merely selects, deletes or copies
+						// into the existing items also re-orders a list that was given unordered is left open, like the
+						// order after the unordered full update itself)
+						merges := u.fs.partial && !u.fs.del && u.fs.partialSel == 0 && len(u.items) > 0
+						for _, it := range u.items {
+							merges = merges && it.id != 0
+						}
+						for _, rr := range state {
+							_, full := sp.keyOf(rr)
+							merges = merges && full // (where an item without identifier belongs in the order is not defined)
+						}
+						if merges && len(state) >= 2 && recsStr(want) != recsStr(state) && path != "remote-nopersist" {
+							rev := make([]rec, len(state))
+							for i := range state {
+								rev[len(state)-1-i] = state[i]
+							}
+							var stored2 any
+							if p := guard(func() {
+								if path == "remote" {
+									feats.remote.UpdateData(true, sp.fn, sp.fromRecs(rev), nil, nil)
+									feats.remote.UpdateData(true, sp.fn, sp.list(u.items), fp, fd)
+									stored2 = feats.remote.DataCopy(sp.fn)
+								} else {
+									feats.local.UpdateData(sp.fn, sp.fromRecs(rev), nil, nil)
+									feats.local.UpdateData(sp.fn, sp.list(u.items), fp, fd)
+									stored2 = feats.local.DataCopy(sp.fn)
+								}
+							}); p == nil {
+								if st2, _ := sp.itemsOf(stored2); !sp.sameList(st2, want) {
+									fail("after an update of a list that was stored in another order the data differs from the fold of the update rules / is not ordered by identifier ("+path+")", u, fmt.Sprintf("%s (stored in reverse order)\n want=%s\n got=%s", ctx, recsStr(want), recsStr(st2)))
+									good = false
+								}
+							}
+						}
 						// applying the same update a second time changes nothing
 						if path == "local" {
 							if p := guard(func() {
